@@ -102,18 +102,41 @@ func vNewInst(o vInstOpts) (*vInst, error) {
 }
 
 // vClose shuts the instance down through the same steps as SLock.PrepareClose/Close but without
-// the one second sleep (there are no sweep goroutines to wait for when NoCheckLoop is set;
-// otherwise the caller passes wait=true).
+// the one second sleep: instead it waits for every AOF channel goroutine to exit before the AOF file
+// is closed (a late record would otherwise re-open a file and start a rewrite goroutine that outlives
+// the instance and reads the package-global Config of the next one). A teardown that does not finish
+// within a few seconds abandons the instance; it is never a verdict.
 func (in *vInst) vClose(wait bool, removeDir bool) {
+	done := make(chan struct{})
+	go func() {
+		defer close(done)
+		in.vCloseSteps(wait)
+	}()
+	select {
+	case <-done:
+		if removeDir {
+			_ = os.RemoveAll(in.dir)
+		}
+	case <-time.After(5 * time.Second):
+		atomic.AddInt64(&vAbandoned, 1)
+	}
+}
+
+var vAbandoned int64
+
+func (in *vInst) vCloseSteps(wait bool) {
 	s := in.slock
 	if s.arbiterManager != nil {
 		s.arbiterManager.isClosing = true
 		_ = s.arbiterManager.Close()
 	}
+	_ = s.aof.WaitFlushAofChannel()
 	s.glock.Lock()
 	s.state = STATE_CLOSE
+	var channels []*AofChannel
 	for _, db := range s.dbs {
 		if db != nil {
+			channels = append(channels, db.aofChannels...)
 			db.status = STATE_CLOSE // LockDB.Close only acts on a DB already marked closed
 			db.Close()
 		}
@@ -121,6 +144,11 @@ func (in *vInst) vClose(wait bool, removeDir bool) {
 	s.glock.Unlock()
 	if wait {
 		time.Sleep(1100 * time.Millisecond)
+	}
+	for _, ch := range channels {
+		if ch != nil {
+			<-ch.closedWaiter
+		}
 	}
 	s.aof.Close()
 	s.replicationManager.Close()
@@ -136,7 +164,4 @@ func (in *vInst) vClose(wait bool, removeDir bool) {
 	}
 	s.glock.Unlock()
 	s.server = nil
-	if removeDir {
-		_ = os.RemoveAll(in.dir)
-	}
 }
